@@ -2,20 +2,23 @@
 files and on hostile variants of them; every document they write must parse with two independent parsers
 (gen.c18_xmlcheck.parse_both) and carry the data it was given unchanged.
 
-  indexxml      RP66V1.IndexXML.write_logical_file_sequence_to_xml: parses; element-for-element equal to the in-memory
+  indexxml      RP66V1.IndexXML.write_logical_file_sequence_to_xml: parses; element for element equal to the in-memory
                 LogicalIndex (EFLR/Object/Attribute/Value, LogPass/FrameArray/Channel); every RLE block (FrameNumbers,
-                LRSH, Xaxis, VisibleRecords) expands -- by multiplication and by repeated addition -- to the indexed list.
-  scanhtml      RP66V1.ScanHTML.html_scan_RP66V1_file_data_content: parses; every bytes value / label / name held in
-                memory appears in the text of the page.   scanhtml_dir: the index pages of scan_dir_or_file parse.
-  lashtml       LAS.LASToHTML.las_file_to_html: parses; the <td>/<pre> cells equal the LASRead section members.
-  lishtml       LIS.LisToHtml.processFile: every written .html parses.
-  svg           util.plot.SVGWriter driven directly with random nested elements / hostile attributes, text, comments.
-  plot          PlotLogs.PlotLogPasses on example LIS/LAS files (and a LIS copy whose PRES OUTP mnemonic holds '--'):
-                every written .svg parses.
+                LRSH, Xaxis, VisibleRecords) expands -- as datum+stride*i and by repeated addition -- to the indexed list.
+  scanhtml      RP66V1.ScanHTML.html_scan_RP66V1_file_data_content: parses; every value / label / object reference held
+                in memory is in the page text.   scanhtml_dir: all pages of scan_dir_or_file (indexes included) parse.
+  lashtml       LAS.LASToHTML.las_file_to_html: parses; its <td>/<pre> cells equal the LASRead section members.
+  lishtml       LIS.LisToHtml.processFile: every page parses (the example files themselves hold NUL bytes: F13; the rest
+                of the page is then judged with the illegal references removed); patched strings are in the page text.
+  svg           util.plot.SVGWriter driven directly: random nesting, hostile attributes / text, mnemonic-like comments;
+                the parsed event stream (both parsers) equals what was written.
+  plot          PlotLogs.PlotLogPasses on the example LIS files, and on copies whose PRES table OUTP mnemonic holds '--'
+                (it reaches comment(): Plot.py:1299/1309 -> 598) or markup: every .svg and the index.html parse.
 
-Hostile variants: byte-level patches (same length, inside existing IDENT/ASCII/UNITS payloads) of the small example
-DLIS files, generated LAS 2.0 text, a patched LIS copy.  A case dict records the patches themselves, so replay_case
-does not depend on the random stream.  A producer that *raises* on a hostile input is counted and noted, not failed.
+Hostile variants: byte patches (same length, inside existing IDENT/ASCII/UNITS payloads resp. printable runs) of the
+example DLIS / LIS files, generated LAS 2.0 text, hostile directory names.  A case dict holds the patches themselves, so
+replay_case does not depend on the random stream.  A not-well-formed document is classified strictly by
+classify_not_wf (F13 / F20 / None).  A producer that *raises* on a hostile input is counted and noted, not failed.
 """
 import functools
 import io
@@ -324,7 +327,8 @@ def _check_index_doc(li, root, private):
         x_lp, lp = kids[-1], lf.log_pass
         x_fas = list(x_lp)
         if x_lp.get('count') != str(len(lp.frame_arrays)) or [f.tag for f in x_fas] != ['FrameArray'] * len(lp.frame_arrays):
-            msgs.append(f'{w}.LogPass: {len(x_fas)} children, count={x_lp.get("count")} for {len(lp.frame_arrays)} frame arrays'); continue
+            msgs.append(f'{w}.LogPass: {len(x_fas)} children, count={x_lp.get("count")} for {len(lp.frame_arrays)} frame arrays')
+            continue
         for x_fa, fa in zip(x_fas, lp.frame_arrays):
             wf = f'{w}.FrameArray[{L(fa.ident.I)!r}]'
             refs = list(lf.iflr_position_map[fa.ident])
@@ -486,8 +490,9 @@ def _gen_las_text(rng, ctrl):
             m = prefix + tok().replace(' ', '_') + str(rng.randint(0, 99))
             if m not in used:
                 used.add(m); return m
-    lines = ['~Version Information', ' VERS.   2.0 : CWLS LOG ASCII STANDARD - VERSION 2.0', ' WRAP.   NO  : ONE LINE PER DEPTH STEP',
-             '~Well Information', ' STRT.M   1000.0 : START', ' STOP.M   1001.5 : STOP', ' STEP.M   0.5 : STEP', ' NULL.   -999.25 : NULL']
+    lines = ['~Version Information', ' VERS.   2.0 : CWLS LOG ASCII STANDARD - VERSION 2.0',
+             ' WRAP.   NO  : ONE LINE PER DEPTH STEP', '~Well Information', ' STRT.M   1000.0 : START',
+             ' STOP.M   1001.5 : STOP', ' STEP.M   0.5 : STEP', ' NULL.   -999.25 : NULL']
     lines += [f' {mnem("W")}.{tok() if rng.random() < .5 else ""}   {words(3)} : {words(4)}' for _ in range(rng.randint(2, 6))]
     curves = [mnem('C') for _ in range(rng.randint(1, 4))]
     lines += ['~Curve Information', f' DEPT.M   : {words(3)}']
@@ -541,11 +546,13 @@ def _do_lashtml(ctx, case, work):
     got_triples = [[txt(c) for c in list(r)[:3]] for r in root.iter(XHTML + 'tr')
                    if len(r) == 17 and all(c.tag == XHTML + 'td' for c in r)]
     for what, got, want in (('section table cells', got_cells, cells), ('~O lines', got_pres, pres),
-                            ('array table channel/units/long name', got_triples, [[x.replace('\n', '') for x in t] for t in triples])):
+                            ('array table channel/units/long name', got_triples,
+                             [[x.replace('\n', '') for x in t] for t in triples])):
         if not _eq(got, want):
             msgs.append(_first_diff(what, got, want))
     if case.get('text') is not None:   # did the hostile tokens reach the reader at all?
-        ctx.count('lashtml_tokens_held_by_reader', sum(1 for t in LAS_TOKENS + LAS_CTRL if t in case['text'] and any(t in s for s in strings)))
+        ctx.count('lashtml_tokens_held_by_reader',
+                  sum(1 for t in LAS_TOKENS + LAS_CTRL if t in case['text'] and any(t in s for s in strings)))
     if msgs:
         return _mismatch(ctx, case, msgs)
     ctx.nontriv(('lashtml', case.get('file') or hash(case['text']), case['kind']))
@@ -587,7 +594,8 @@ def _lis_pages(work, path):
     from TotalDepth.LIS import LisToHtml
     d = os.path.join(work, 'out')
     LisToHtml.processFile(path, os.path.join(d, os.path.basename(path)), False)
-    return {f: open(os.path.join(d, f), 'rb').read().decode('utf-8') for f in sorted(os.listdir(d)) if f.endswith(('.html', '.svg'))}
+    return {f: open(os.path.join(d, f), 'rb').read().decode('utf-8') for f in sorted(os.listdir(d))
+            if f.endswith(('.html', '.svg'))}
 
 
 def _lis_targets(ctx, rel):
@@ -629,8 +637,8 @@ def _do_lishtml(ctx, case, work):
                 continue
         shown = ''.join(res['lxml_root'].itertext())
         # LisToHtml decodes with ('ascii', 'replace'): a byte >= 0x80 is shown as U+FFFD (a decoding policy, not an XML matter)
-        lost = [s for s in case['injected'] if ILLEGAL_RE.sub('', s) not in shown
-                and ILLEGAL_RE.sub('', s.encode('latin-1').decode('ascii', 'replace')) not in shown]
+        found = lambda s: re.search('.{0,8}'.join(re.escape(x) for x in ILLEGAL_RE.split(s)), shown, re.S)   # cf. _same
+        lost = [s for s in case['injected'] if not found(s) and not found(s.encode('latin-1').decode('ascii', 'replace'))]
         if lost:
             ok = False
             details.append(_mismatch(ctx, case, [f'patched string {s!r} is not in the page text' for s in lost])[1])
@@ -659,7 +667,8 @@ def _run_lishtml(ctx):
 
 # ------------------------------------------------------------------ 5. SVGWriter (direct) and real plots
 
-SVG_TEXT = ['GR', 'DEPT <m>', 'R&D', '"q"', "it's", 'caf\xe9 \xb5 \xb0', 'a\tb', 'l1\nl2', ']]>', '&lt;', '\u2028x', '\x7f', '\U0001F6E2']
+SVG_TEXT = ['GR', 'DEPT <m>', 'R&D', '"q"', "it's", 'caf\xe9 \xb5 \xb0', 'a\tb', 'l1\nl2', ']]>', '&lt;', '\u2028x', '\x7f',
+            '\U0001F6E2']
 SVG_COMMENT = [' curve GR ', 'Output SP   START', ' RHOB/NPHI ', ' a - b ', 'DT.US/F (1)']   # no markup: see report
 SVG_COMMENT_BAD = [' Output C--I START ', 'NPHI-', 'A--', '--', ' DT - ']
 
@@ -683,17 +692,21 @@ def _svg_doc(seed, kind):
     def element(xs, depth):
         a, t = attrs(), rng.randrange(8)
         box, p, q = Coord.Box(dim(), dim()), pt(), pt()
-        pts = [Coord.Pt(Coord.Dim(rng.randint(0, 99), None), Coord.Dim(rng.randint(0, 99), None)) for _ in range(rng.randint(0, 3))]
+        pts = [Coord.Pt(Coord.Dim(rng.randint(0, 99), None), Coord.Dim(rng.randint(0, 99), None))
+               for _ in range(rng.randint(0, 3))]
         plist = {'points': ' '.join('%.1f,%.1f' % (x.x.value, x.y.value) for x in pts)}
         name, fixed, el = [
             ('g', {}, lambda: SVGWriter.SVGGroup(xs, a)),
-            ('rect', {'x': fd(p.x), 'y': fd(p.y), 'width': fd(box.width), 'height': fd(box.depth)}, lambda: SVGWriter.SVGRect(xs, p, box, a)),
+            ('rect', {'x': fd(p.x), 'y': fd(p.y), 'width': fd(box.width), 'height': fd(box.depth)},
+             lambda: SVGWriter.SVGRect(xs, p, box, a)),
             ('circle', {'cx': fd(p.x), 'cy': fd(p.y), 'r': fd(box.width)}, lambda: SVGWriter.SVGCircle(xs, p, box.width, a)),
-            ('elipse', {'cx': fd(p.x), 'cy': fd(p.y), 'rx': fd(box.width), 'ry': fd(box.depth)}, lambda: SVGWriter.SVGElipse(xs, p, box.width, box.depth, a)),
+            ('elipse', {'cx': fd(p.x), 'cy': fd(p.y), 'rx': fd(box.width), 'ry': fd(box.depth)},
+             lambda: SVGWriter.SVGElipse(xs, p, box.width, box.depth, a)),
             ('line', {'x1': fd(p.x), 'y1': fd(p.y), 'x2': fd(q.x), 'y2': fd(q.y)}, lambda: SVGWriter.SVGLine(xs, p, q, a)),
             ('polyline', plist, lambda: SVGWriter.SVGPolyline(xs, pts, a)),
             ('polygon', plist, lambda: SVGWriter.SVGPolygon(xs, pts, a)),
-            ('text', {'font-family': 'Courier', 'font-size': '12', 'x': fd(p.x), 'y': fd(p.y)}, lambda: SVGWriter.SVGText(xs, p, 'Courier', 12, a)),
+            ('text', {'font-family': 'Courier', 'font-size': '12', 'x': fd(p.x), 'y': fd(p.y)},
+             lambda: SVGWriter.SVGText(xs, p, 'Courier', 12, a)),
         ][t]
         with el():
             ev.append(('start', name, tuple(sorted(dict(fixed, **a).items()))))
@@ -712,7 +725,8 @@ def _svg_doc(seed, kind):
     root_attrs = attrs()
     vp = Coord.Box(dim(), dim())
     with SVGWriter.SVGWriter(out, vp, root_attrs or None) as xs:
-        ev.append(('start', 'svg', tuple(sorted(dict({'version': '1.1', 'width': fd(vp.width), 'height': fd(vp.depth)}, **root_attrs).items()))))
+        fixed = {'version': '1.1', 'width': fd(vp.width), 'height': fd(vp.depth)}
+        ev.append(('start', 'svg', tuple(sorted(dict(fixed, **root_attrs).items()))))
         for _ in range(rng.randint(1, 4)):
             element(xs, 0)
     ev.append(('end', 'svg'))
@@ -769,7 +783,8 @@ def _do_plot(ctx, case, work):
     import argparse
     from TotalDepth import PlotLogs
     path, d = _input(work, case), os.path.join(work, 'out')
-    opts = argparse.Namespace(recurse=False, keepGoing=True, LgFormat=[], apiHeader=case['api'], LgFormat_min=case['lgmin'], scale=0)
+    opts = argparse.Namespace(recurse=False, keepGoing=True, LgFormat=[], apiHeader=case['api'], LgFormat_min=case['lgmin'],
+                              scale=0)
     try:
         info = PlotLogs.PlotLogPasses(path, os.path.join(d, 'p'), opts).plotLogInfo
         if case.get('index'):
